@@ -53,7 +53,10 @@ Power    == LMT(R(2), ROne, R(-3), RZero)
 Pressure == LMT(R(-1), ROne, R(-2), RZero)
 Freq     == LMT(RZero, RZero, R(-1), RZero)
 Volume   == DPow(L1, R(3))
-U(v, d) == [v |-> v, d |-> d]
+\* x: the exponent of a base dimension outside the SI ("information": bit, byte).  It has no SI unit; it is a
+\* dimension like any other for the question whether a conversion is allowed.
+UX(v, d, x) == [v |-> v, d |-> d, x |-> x]
+U(v, d) == UX(v, d, 0)
 
 (* The unit table: exact SI value of one unit, and its dimension.  Names are  *)
 (* shared with harness/c07.py, which maps each to a real unit expression.     *)
@@ -78,6 +81,8 @@ Units == [
   aq_s    |-> U(ROne, DDiv(A1, T1)),  \* angle dimension per time: equivalent to a frequency
   liter   |-> U(<<1, 1000>>, Volume), m3      |-> U(ROne, Volume),
   mps     |-> U(ROne, Speed),         kmh     |-> U(<<5, 18>>, Speed),
+  bit     |-> UX(ROne, D1, 1),        byte    |-> UX(R(8), D1, 1),       \* information, counted in bits
+  bit_s   |-> UX(ROne, Freq, 1),      \* bit / second: not a frequency
   kelvin  |-> U(ROne, K1),            mK      |-> U(<<1, 1000>>, K1)      \* a quantity of one millikelvin
 ]
 
@@ -92,10 +97,10 @@ MulOK(a, b) == Mag(a) <= MaxInt \div Mag(b)                 \* RMul(a, b) and RD
 AddOK(a, b) == MulOK(a, b) /\ Mag(a) * Mag(b) <= MaxInt \div 2
 
 (* Conversion, from the statement.                                           *)
-Convertible(q, u) == Equiv(q.d, u.d)
+Convertible(q, u) == Equiv(q.d, u.d) /\ q.x = u.x
 ConvertTo(q, u)   == RDiv(q.v, u.v)          \* the number n with n * u = q   (only if Convertible)
 ToSI(q)           == q.v                     \* the SI unit of a dimension has value 1
-TimesUnit(n, u)   == U(RMul(n, u.v), u.d)    \* the quantity "n units"
+TimesUnit(n, u)   == UX(RMul(n, u.v), u.d, u.x)    \* the quantity "n units"
 
 KOffset == 273150000                         \* 273.15 in millionths of a degree
 ToKelvin(c)   == c + KOffset
@@ -144,12 +149,12 @@ ExprDefined(op, a, b) ==
     [] op = "sq" -> MulOK(a.v, a.v)
     [] op = "scale" -> MulOK(a.v, b.v) /\ Dimless(b.d)
 Meaning(op, a, b) ==                       \* the expression as a quantity
-  CASE op = "mul" -> U(RMul(a.v, b.v), DMul(a.d, b.d))
-    [] op = "div" -> U(RDiv(a.v, b.v), DDiv(a.d, b.d))
-    [] op = "add" -> U(RAdd(a.v, b.v), a.d)
-    [] op = "sub" -> U(RSub(a.v, b.v), a.d)
-    [] op = "sq"  -> U(RMul(a.v, a.v), DMul(a.d, a.d))
-    [] op = "scale" -> U(RMul(b.v, a.v), a.d)
+  CASE op = "mul" -> UX(RMul(a.v, b.v), DMul(a.d, b.d), a.x + b.x)
+    [] op = "div" -> UX(RDiv(a.v, b.v), DDiv(a.d, b.d), a.x - b.x)
+    [] op = "add" -> UX(RAdd(a.v, b.v), a.d, a.x)
+    [] op = "sub" -> UX(RSub(a.v, b.v), a.d, a.x)
+    [] op = "sq"  -> UX(RMul(a.v, a.v), DMul(a.d, a.d), 2 * a.x)
+    [] op = "scale" -> UX(RMul(b.v, a.v), a.d, a.x)
 Evaluate(op, x, y) ==                      \* the same arithmetic on the SI numbers x, y of the quantities
   CASE op = "mul" -> RMul(x, y) [] op = "div" -> RDiv(x, y) [] op = "add" -> RAdd(x, y)
     [] op = "sub" -> RSub(x, y) [] op = "sq" -> RMul(x, x) [] op = "scale" -> RMul(y, x)
@@ -164,6 +169,7 @@ Combine(op, val2, u2, e) ==
   /\ (op = "sq" => val2 = start.val /\ u2 = start.u)          \* the square has one operand
   /\ MulOK(Vals[val2], Units[u2].v)
   /\ LET a == Q0   b == TimesUnit(Vals[val2], Units[u2]) IN
+       /\ a.x = 0 /\ b.x = 0            \* evaluation to SI numbers: only for dimensions that have an SI unit
        /\ ExprDefined(op, a, b)
        /\ expr' = [op |-> op, b |-> [val |-> val2, u |-> u2], si |-> Evaluate(op, ToSI(a), ToSI(b)),
                    d |-> Meaning(op, a, b).d, e |-> e, e10 |-> e * Degree(op)]
@@ -174,7 +180,7 @@ Combine(op, val2, u2, e) ==
 KOffsetR == <<5463, 20>>                                      \* 273.15
 ToCelsius ==
   /\ mode = "chain" /\ ~err /\ expr = NoExpr /\ Len(chain) = 1 /\ start.k = 0
-  /\ IF Equiv(Q0.d, K1)
+  /\ IF Equiv(Q0.d, K1) /\ Q0.x = 0
      THEN AddOK(Q0.v, KOffsetR) /\ expr' = [op |-> "celsius", ok |-> TRUE, c |-> RSub(Q0.v, KOffsetR)]
      ELSE Q0.v # RZero /\ expr' = [op |-> "celsius", ok |-> FALSE, c |-> RZero]
   /\ UNCHANGED <<mode, start, cur, chain, err, temp>>
@@ -217,11 +223,13 @@ Inverse        == InChain /\ ~err /\ cur.u = start.u => cur.n = Vals[start.val]
 OwnSIUnit      == InChain /\ ~err /\ Units[cur.u].v = ROne => cur.n = ToSI(Q0)
 \* refused exactly between inequivalent dimensions; a refusal ends the chain
 RefusalExact   ==
-  InChain => /\ err = (Len(chain) >= 2 /\ ~Equiv(Units[chain[Len(chain) - 1]].d, Units[chain[Len(chain)]].d))
-             /\ \A i \in 1..(Len(chain) - 2) : Equiv(Units[chain[i]].d, Units[chain[i + 1]].d)
+  InChain => /\ err = (Len(chain) >= 2 /\ ~Convertible(Units[chain[Len(chain) - 1]], Units[chain[Len(chain)]]))
+             /\ \A i \in 1..(Len(chain) - 2) : Convertible(Units[chain[i]], Units[chain[i + 1]])
+\* information never converts to or from anything without it, whatever the other exponents are
+ForeignBaseCounts == InChain /\ ~err => \A i \in 1..Len(chain) : Units[chain[i]].x = Units[chain[1]].x
 \* conversion is linear: twice the quantity gives twice the number
 Linear == InChain /\ ~err /\ MulOK(R(2), cur.n) /\ MulOK(R(2), Q0.v) /\ MulOK(RMul(R(2), Q0.v), Units[cur.u].v)
-            => ConvertTo(U(RMul(R(2), Q0.v), Q0.d), Units[cur.u]) = RMul(R(2), cur.n)
+            => ConvertTo(UX(RMul(R(2), Q0.v), Q0.d, Q0.x), Units[cur.u]) = RMul(R(2), cur.n)
 \* evaluating on SI numbers gives the SI value of the expression
 EvaluationPreservesValue ==
   (expr # NoExpr /\ expr.op # "celsius") => LET b == TimesUnit(Vals[expr.b.val], Units[expr.b.u]) IN
@@ -241,7 +249,7 @@ Homogeneous ==
           => Evaluate(expr.op, RMul(R(2), x), RMul(R(2), y)) = RMul(c, expr.si)
 \* the Celsius helper accepts exactly temperatures and is the inverse of adding the offset
 CelsiusHelper == (expr # NoExpr /\ expr.op = "celsius") =>
-  /\ expr.ok = Equiv(Q0.d, K1)
+  /\ expr.ok = (Equiv(Q0.d, K1) /\ Q0.x = 0)
   /\ (expr.ok => RAdd(expr.c, KOffsetR) = Q0.v)
 \* a number that is handed out as a float must be the whole number: only real values qualify
 FloatRepresentable == start.k = 0
@@ -255,7 +263,7 @@ DimSeq(d) == <<d["L"], d["M"], d["T"], d["I"], d["K"], d["N"], d["J"], d["A"]>>
 Emit ==
   /\ (InChain /\ Len(chain) >= 2) =>
         PrintT(ToJson([k |-> "chain", val |-> start.val, chain |-> chain, n |-> cur.n, err |-> err, si |-> Q0.v,
-                       d |-> DimSeq(Q0.d), im |-> start.k, flt |-> FloatRepresentable]))
+                       d |-> DimSeq(Q0.d), x |-> Q0.x, im |-> start.k, flt |-> FloatRepresentable]))
   /\ (mode = "chain" /\ expr # NoExpr /\ expr.op = "celsius") =>
         PrintT(ToJson([k |-> "celsius", a |-> start, ok |-> expr.ok, c |-> expr.c]))
   /\ (mode = "chain" /\ expr # NoExpr /\ expr.op # "celsius") =>
